@@ -4,6 +4,7 @@
 mod alloc_track;
 mod engine;
 mod gen;
+mod isolate;
 mod mutate;
 mod props;
 mod terms;
@@ -25,6 +26,31 @@ fn main() {
         usage();
     }
     let id = args[1].clone();
+    if id == "__depthprobe" {
+        // largest nesting depth each entry point survives on a 2 MiB stack, per container kind
+        let mut w = isolate::Worker::new();
+        for kind in 0..8u8 {
+            let mut line = format!("kind {kind}:");
+            for e in [0usize, 1] {
+                let (mut lo, mut hi) = (1u32, 400_000u32);
+                while lo < hi {
+                    let mid = (lo + hi + 1) / 2;
+                    let (b, _) = props::c02::bytes_of(&props::c02::Case::Depth { kind, k: mid });
+                    match w.eval(&b, 1 << e) {
+                        Ok(Ok(_)) => lo = mid,
+                        _ => hi = mid - 1,
+                    }
+                }
+                line.push_str(&format!(" {}={}", isolate::ENTRY_NAMES[e], lo));
+            }
+            println!("{line}");
+        }
+        return;
+    }
+    if id == "__worker" {
+        engine::install_panic_hook();
+        isolate::worker_main();
+    }
     let mut tier = match std::env::var("VERIF_TIER").as_deref() {
         Ok("thorough") => Tier::Thorough,
         _ => Tier::Quick,
